@@ -699,6 +699,79 @@ def all_cases(nmax):
     yield from load_all_cases(nmax)
 
 
+def extra_property_cases(ctx, env):
+    """cases outside the Model's fault space, judged on the property alone: caller-supplied BINARY streams
+    (the library must not close them, whether the call succeeds or fails, also after a garbage collection),
+    and input files that are not valid UTF-8 (the failure happens while READING; the file the library opened
+    must be closed by the time the call raises)"""
+    g = graph(None)
+    text_yaml = text("yaml", None)
+    text_json = text("json", None)
+    # ---- binary caller streams
+    def writers():
+        yield "dump", "json", lambda f: ld.dump(g, f, format="json")
+        yield "dump", "yaml", lambda f: ld.dump(g, f, format="yaml")
+        yield "dump_all", "yaml", lambda f: ld.dump_all([g, g], f)
+    def readers():
+        yield "load", "yaml", text_yaml, lambda f: ld.load(f, format="yaml")
+        yield "load", "json", text_json, lambda f: ld.load(f, format="json")
+        yield "load_asdict", "yaml", text_yaml, lambda f: ld.load_asdict(f, format="yaml")
+        yield "load_asdict", "json", text_json, lambda f: ld.load_asdict(f, format="json")
+        yield "load_all", "yaml", text_yaml, lambda f: list(ld.load_all(f))
+    def check_stream(entry, fmt, kind, stream, call):
+        case = {"entry": entry, "format": fmt, "target": kind, "extra": "binary caller stream"}
+        ctx.count(case, True, tags=[entry, "target:" + kind, "extra:binary_stream"])
+        outcome = "returned"
+        try:
+            call(stream)
+        except Exception as e:  # noqa: BLE001 - TypeError on the unchanged tree: a text writer on a binary stream
+            outcome = "raised " + type(e).__name__
+        gc.collect()
+        if stream.closed:
+            ctx.violation(f"{entry}: the caller's stream was closed by the library", case, detail={"outcome": outcome},
+                          python=f"import io, demes; s = io.BytesIO(); ... demes.{entry}(..., s{', format=' + repr(fmt) if entry == 'dump' else ''}); assert not s.closed")
+        else:
+            stream.close()
+    for entry, fmt, call in writers():
+        check_stream(entry, fmt, "BytesIO", io.BytesIO(), call)
+        check_stream(entry, fmt, "binary file", REAL_OPEN(os.path.join(env.dir, "out-binary.bin"), "wb"), call)
+    for entry, fmt, content, call in readers():
+        check_stream(entry, fmt, "BytesIO", io.BytesIO(content.encode()), call)
+        pth = os.path.join(env.dir, "in-binary.bin")
+        with REAL_OPEN(pth, "wb") as fh:
+            fh.write(content.encode())
+        check_stream(entry, fmt, "binary file", REAL_OPEN(pth, "rb"), call)
+    # ---- input that is not valid UTF-8
+    bad = os.path.join(env.dir, "latin1.txt")
+    with REAL_OPEN(bad, "wb") as fh:
+        fh.write("description: caf\u00e9 model\ntime_units: generations\ndemes:\n- name: A\n  epochs:\n  - start_size: 100\n".encode("latin-1"))
+    for entry, fmt, _content, call in readers():
+        for kind, target in (("str", bad), ("Path", pathlib.Path(bad))):
+            case = {"entry": entry, "format": fmt, "target": kind, "extra": "file that is not valid UTF-8"}
+            ctx.count(case, True, tags=[entry, "target:" + kind, "extra:bad_utf8"])
+            opened = []
+
+            def tracking_open(file, *a, **kw):
+                f = REAL_OPEN(file, *a, **kw)
+                opened.append(f)
+                return f
+            builtins.open = tracking_open
+            try:
+                try:
+                    call(target)
+                    still = []
+                except Exception:  # noqa: BLE001 - observed while the exception is alive
+                    still = [f for f in opened if not f.closed]
+            finally:
+                builtins.open = REAL_OPEN
+            if still:
+                ctx.violation(f"{entry}: a file opened by the library is still open at the moment the call raises", case,
+                              python=f"write a latin-1 encoded document to a file and call demes.{entry}(path{', format=' + repr(fmt) if entry != 'load_all' else ''}) with builtins.open tracked")
+            for f in opened:
+                if not f.closed:
+                    f.close()
+
+
 def run_batch(ctx, env, cases):
     reqs = []
     for c in cases:
@@ -725,6 +798,7 @@ def run(ctx):
     gc.collect()
     gc.freeze()
     try:
+        extra_property_cases(ctx, env)
         batch = []
         for c in all_cases(nmax):
             batch.append(c)
